@@ -184,3 +184,153 @@ void h_recalc_height(void)
 	__CPROVER_assert(v_n[0].height == 1 + (l > r ? l : r), "[C16] recorded height = 1 + max of the children's recorded heights");
 	CANARY();
 }
+
+/* ====================================================================
+ * Local lemmas for the unlink steps of iv_avl_tree_delete (before the
+ * rebalancing walk): valid for every tree, with abstract subtrees off the
+ * touched path.  Victim chains of length <= 2 (one unwinding assertion).
+ * ================================================================== */
+struct verif_del_t {
+	_Bool	an_has_parent, an_is_left;	/* where `an` hangs */
+	_Bool	has_l, has_r;			/* an's children */
+	uint8_t	hl, hr;				/* their recorded heights */
+	uint8_t	chain;				/* victim is chain steps below the chosen child (0, 1, 2) */
+	_Bool	victim_has_child;
+	uint8_t	h_an;
+} ;
+static struct iv_avl_tree	d_tree;
+static struct iv_avl_node	d_par, d_an, d_L, d_R, d_c1, d_c2, d_vc, d_sib1, d_sib2;
+struct verif_in_del_t { struct verif_del_t d; } ;
+
+/* position of d_an in its parent / the tree */
+static struct iv_avl_node **an_ref(const struct verif_del_t *d)
+{
+	if (!d->an_has_parent)
+		return &d_tree.root;
+	return d->an_is_left ? &d_par.left : &d_par.right;
+}
+
+static void abstract_node(struct iv_avl_node *n, struct iv_avl_node *parent, int h)
+{
+	n->left = (struct iv_avl_node *)(uintptr_t)8;	/* never dereferenced */
+	n->right = (struct iv_avl_node *)(uintptr_t)8;
+	n->parent = parent;
+	n->height = h;
+}
+
+void h_delete_leaf(void)
+{
+	struct verif_del_t d, nd;
+	struct iv_avl_node *r, **ref;
+
+	d = nd;
+	d_an.left = NULL; d_an.right = NULL; d_an.height = 1;
+	d_an.parent = d.an_has_parent ? &d_par : NULL;
+	abstract_node(&d_sib1, &d_par, 3);
+	d_par.left = &d_sib1; d_par.right = &d_sib1;
+	d_tree.root = &d_sib2;
+	ref = an_ref(&d);
+	*ref = &d_an;
+
+	r = iv_avl_tree_delete_leaf(&d_tree, &d_an);
+
+	__CPROVER_assert(*ref == NULL, "[C16] deleting a leaf clears exactly the reference that pointed to it");
+	__CPROVER_assert(r == (d.an_has_parent ? &d_par : NULL), "[C16] rebalancing starts at the leaf's parent");
+	__CPROVER_assert(IMPLIES(d.an_has_parent && d.an_is_left, d_par.right == &d_sib1) && IMPLIES(d.an_has_parent && !d.an_is_left, d_par.left == &d_sib1), "[C16] the sibling is untouched");
+	__CPROVER_assert(IMPLIES(d.an_has_parent, d_tree.root == &d_sib2), "[C16] the root pointer is untouched unless the leaf was the root");
+	CANARY();
+}
+
+void h_delete_nonleaf(void)
+{
+	struct verif_del_t d, nd;
+	struct iv_avl_node *r, **ref, *victim, *top, *vparent;
+	int left_side;
+
+	d = nd;
+	__CPROVER_assume(d.has_l || d.has_r);
+	__CPROVER_assume(d.chain <= 2);
+	__CPROVER_assume(d.hl >= 1 && d.hl <= 250 && d.hr >= 1 && d.hr <= 250);
+	d_an.parent = d.an_has_parent ? &d_par : NULL;
+	abstract_node(&d_sib1, &d_par, 3);
+	d_par.left = &d_sib1; d_par.right = &d_sib1;
+	d_tree.root = &d_sib2;
+	ref = an_ref(&d);
+	*ref = &d_an;
+	d_an.height = d.h_an;
+	/* children: the one the victim is taken from is real (a chain), the other abstract */
+	left_side = (d.has_l ? d.hl : 0) > (d.has_r ? d.hr : 0);
+	if (!left_side)
+		__CPROVER_assume(d.has_r);	/* heights exact: the right subtree exists when it is at least as high */
+	top = &d_L;
+	if (left_side) {
+		d_an.left = &d_L; d_L.parent = &d_an; d_L.height = d.hl;
+		d_an.right = d.has_r ? &d_R : NULL;
+		if (d.has_r) abstract_node(&d_R, &d_an, d.hr);
+	} else {
+		d_an.right = &d_L; d_L.parent = &d_an; d_L.height = d.hr;
+		d_an.left = d.has_l ? &d_R : NULL;
+		if (d.has_l) abstract_node(&d_R, &d_an, d.hl);
+	}
+	/* chain towards the victim: along ->right in the left subtree, ->left in the right subtree */
+#define TOWARDS(n)	(left_side ? (n)->right : (n)->left)
+#define AWAY(n)		(left_side ? (n)->left : (n)->right)
+#define SET_TOWARDS(n, v)	do { if (left_side) (n)->right = (v); else (n)->left = (v); } while (0)
+#define SET_AWAY(n, v)		do { if (left_side) (n)->left = (v); else (n)->right = (v); } while (0)
+	SET_AWAY(&d_L, &d_sib2); abstract_node(&d_sib2, &d_L, 2);	/* reuse: off-path subtree of the top */
+	d_tree.root = d.an_has_parent ? &d_par : &d_an;
+	*ref = &d_an;
+	victim = &d_L;
+	if (d.chain >= 1) {
+		SET_TOWARDS(&d_L, &d_c1); d_c1.parent = &d_L; d_c1.height = 5;
+		SET_AWAY(&d_c1, NULL);
+		victim = &d_c1;
+	}
+	if (d.chain >= 2) {
+		SET_TOWARDS(&d_c1, &d_c2); d_c2.parent = &d_c1; d_c2.height = 4;
+		SET_AWAY(&d_c2, NULL);
+		victim = &d_c2;
+	}
+	SET_TOWARDS(victim, NULL);
+	if (d.victim_has_child) {
+		SET_AWAY(victim, &d_vc); abstract_node(&d_vc, victim, 1);
+	} else if (victim != &d_L) {
+		SET_AWAY(victim, NULL);
+	} else {
+		SET_AWAY(victim, NULL);
+	}
+	vparent = victim->parent;
+
+	r = iv_avl_tree_delete_nonleaf(&d_tree, &d_an);
+
+	__CPROVER_assert(*ref == victim && victim->parent == d_an.parent, "[C16] the in-order neighbour (victim) takes the deleted node's place under its parent");
+	__CPROVER_assert(victim->height == d.h_an, "[C16] and its recorded height (the rebalancing walk recomputes it)");
+	__CPROVER_assert(r == (vparent == &d_an ? victim : vparent), "[C16] rebalancing starts where the victim was unlinked: its old parent, or the victim itself when that parent was the deleted node");
+	if (victim != &d_L) {
+		/* the victim's old place is taken by its only child (or cleared) */
+		__CPROVER_assert(TOWARDS(vparent) == (d.victim_has_child ? &d_vc : NULL), "[C16] the victim's place is taken by its only child, or cleared");
+		__CPROVER_assert(IMPLIES(d.victim_has_child, d_vc.parent == vparent), "[C16] that child is re-parented");
+		__CPROVER_assert((left_side ? victim->left : victim->right) == &d_L && d_L.parent == victim, "[C16] the deleted node's subtree on the victim's side hangs from the victim");
+	} else {
+		__CPROVER_assert((left_side ? victim->left : victim->right) == (d.victim_has_child ? &d_vc : NULL) && IMPLIES(d.victim_has_child, d_vc.parent == victim), "[C16] a victim that was the direct child keeps its own subtree on that side");
+	}
+	__CPROVER_assert((left_side ? victim->right : victim->left) == ((left_side ? d.has_r : d.has_l) ? &d_R : NULL) && IMPLIES(left_side ? d.has_r : d.has_l, d_R.parent == victim), "[C16] the deleted node's other subtree hangs from the victim and points back to it");
+	__CPROVER_assert(IMPLIES(d.an_has_parent, d_tree.root == &d_par) && IMPLIES(!d.an_has_parent, d_tree.root == victim), "[C16] the root pointer follows iff the deleted node was the root");
+	CANARY();
+}
+
+void h_find_reference(void)
+{
+	struct verif_del_t d, nd;
+	struct iv_avl_node **ref;
+
+	d = nd;
+	d_an.parent = d.an_has_parent ? &d_par : NULL;
+	d_par.left = &d_sib1; d_par.right = &d_sib1; d_tree.root = &d_sib2;
+	*an_ref(&d) = &d_an;
+	ref = find_reference(&d_tree, &d_an);
+	__CPROVER_assert(ref == an_ref(&d) && *ref == &d_an, "[C16] find_reference yields the one pointer (parent's left, parent's right, or the root) that points to the node");
+	replace_reference(&d_tree, &d_an, &d_vc);
+	__CPROVER_assert(*an_ref(&d) == &d_vc, "[C16] replace_reference redirects exactly that pointer");
+	CANARY();
+}
